@@ -100,3 +100,172 @@ Proof.
   intros R. destruct (two_paths_project_lemma _ _ R) as [R0 R1].
   destruct i; cbn [comp]; [apply (path_excl_excludes_lemma pof _ t u f g R1)|apply (path_excl_excludes_lemma pof _ t u f g R0)].
 Qed.
+
+(* ================================================================================================
+   Deadlock freedom with two paths, under the caller's lock-ordering duty and the no-upgrade guard. *)
+From PV Require Import C15.PathProgress.
+From Coq Require Import Lia.
+
+Definition guard2 (s : state2) (l : label2) : bool :=
+  lock_ordered_label s l && (let '(i, pl) := l in pg_label (comp s i) pl).
+
+Inductive reachable2_g (pof : tid -> nat) : state2 -> Prop :=
+| r2g_init : reachable2_g pof init2
+| r2g_step : forall s l s', reachable2_g pof s -> guard2 s l = true -> step2 pof s l = Some s' -> reachable2_g pof s'.
+
+Lemma ord_set_ord s t v u : ord (set_ord s t v) u = if Nat.eqb u t then v else ord s u.
+Proof. unfold ord, set_ord; cbn. apply Proofs.nth_set_nth. Qed.
+Lemma ord_set_comp s i c u : ord (set_comp s i c) u = ord s u.
+Proof. destruct i; reflexivity. Qed.
+
+(* how a one-path step changes the length of a thread's stack *)
+Lemma pstep_length pof ps t a ps' :
+  pstep pof ps (t, a) = Some ps' ->
+  (forall u, u <> t -> gets ps' u = gets ps u) /\
+  match a with
+  | PPush _ _ _ => length (gets ps' t) = S (length (gets ps t))
+  | PGo => length (gets ps' t) = length (gets ps t) \/ S (length (gets ps' t)) = length (gets ps t)
+  end.
+Proof.
+  intros H. split; [intros u N; exact (pstep_other_thread pof ps t a ps' u H N)|].
+  unfold pstep, pstepo in H. cbv zeta in H. break_pstep H.
+  all: cbn in H; injection H as <-.
+  all: autorewrite with pst.
+  all: try match goal with E : gets _ _ = _ :: _ |- _ => rewrite ?E end.
+  all: cbn [length]; auto.
+Qed.
+
+(* the order of a thread lists its open requests: as many entries for a path as it has frames there; under lock ordering
+   all entries for path 1 are above all entries for path 0 *)
+Fixpoint cnt_path (i : bool) (l : list bool) : nat :=
+  match l with [] => 0 | b :: tl => (if Bool.eqb b i then 1 else 0) + cnt_path i tl end.
+Fixpoint ones_first (l : list bool) : bool :=
+  match l with [] => true | true :: tl => ones_first tl | false :: tl => negb (existsb (fun b => b) tl) end.
+
+Record Inv2 (s : state2) : Prop := {
+  o_cnt : forall t i, cnt_path i (ord s t) = length (gets (comp s i) t);
+  o_sorted : forall t, ones_first (ord s t) = true
+}.
+
+Lemma inv2_init : Inv2 init2.
+Proof.
+  constructor.
+  - intros t i. assert (Z : ord init2 t = []) by (unfold ord, init2; cbn [order]; apply Proofs.nth_nil).
+    rewrite Z. destruct i; cbn [comp comp0 comp1 init2 cnt_path]; rewrite gets_pinit; reflexivity.
+  - intros t. assert (Z : ord init2 t = []) by (unfold ord, init2; cbn [order]; apply Proofs.nth_nil). rewrite Z. reflexivity.
+Qed.
+
+Lemma no_true_ones_first l : existsb (fun b : bool => b) l = false -> ones_first l = true.
+Proof.
+  induction l as [|b tl IH]; [reflexivity|]. cbn. destruct b; [discriminate|]. cbn. intros H. rewrite H. reflexivity.
+Qed.
+
+Lemma ones_first_tail b l : ones_first (b :: l) = true -> ones_first l = true.
+Proof. destruct b; cbn; [auto|]. intros H. apply no_true_ones_first. apply negb_true_iff. exact H. Qed.
+
+Lemma comp_other_eq s i c j : j <> i -> comp (set_comp s i c) j = comp s j.
+Proof. destruct i, j; try congruence; reflexivity. Qed.
+
+Lemma step2_inv2 pof s l s' : Inv2 s -> lock_ordered_label s l = true -> step2 pof s l = Some s' -> Inv2 s'.
+Proof.
+  intros [Oc Os] G H. destruct l as [i [t a]]. unfold step2 in H. destruct a as [sh b r|].
+  - destruct (pstep pof (comp s i) (t, PPush sh b r)) as [c|] eqn:E; [|discriminate]. injection H as <-.
+    destruct (pstep_length _ _ _ _ _ E) as [Lo Lt]. constructor.
+    + intros u j. rewrite ord_set_ord, ord_set_comp, comp_set_ord. destruct (Nat.eqb_spec u t) as [->|N].
+      * cbn [cnt_path]. rewrite Oc. destruct (Bool.eqb_spec i j) as [->|Nij].
+        -- rewrite comp_set_comp_same, Lt. reflexivity.
+        -- rewrite comp_other_eq by congruence. reflexivity.
+      * rewrite Oc. destruct (Bool.eqb_spec i j) as [->|Nij].
+        -- rewrite comp_set_comp_same, (Lo u N). reflexivity.
+        -- rewrite comp_other_eq by congruence. reflexivity.
+    + intros u. rewrite ord_set_ord, ord_set_comp. destruct (Nat.eqb_spec u t) as [->|N]; [|apply Os].
+      destruct i; cbn [ones_first]; [apply Os|]. cbn in G. exact G.
+  - destruct (ord s t) as [|j rest] eqn:Eo; [discriminate|]. destruct (Bool.eqb_spec i j) as [->|Nij]; [|discriminate].
+    destruct (pstep pof (comp s j) (t, PGo)) as [c|] eqn:E; [|discriminate].
+    destruct (pstep_length _ _ _ _ _ E) as [Lo Lt]. pose proof (Oc t) as Oct. pose proof (Os t) as Ost. rewrite Eo in Oct, Ost.
+    destruct (length (gets c t) <? length (gets (comp s j) t)) eqn:Lb; injection H as <-.
+    + apply Nat.ltb_lt in Lb. constructor.
+      * intros u k. rewrite ord_set_ord, ord_set_comp, comp_set_ord. destruct (Nat.eqb_spec u t) as [->|N].
+        -- specialize (Oct k). cbn [cnt_path] in Oct. destruct (Bool.eqb_spec j k) as [->|Njk].
+           ++ rewrite comp_set_comp_same. lia.
+           ++ rewrite comp_other_eq by congruence. lia.
+        -- rewrite Oc. destruct (Bool.eqb_spec j k) as [->|Njk].
+           ++ rewrite comp_set_comp_same, (Lo u N). reflexivity.
+           ++ rewrite comp_other_eq by congruence. reflexivity.
+      * intros u. rewrite ord_set_ord, ord_set_comp. destruct (Nat.eqb_spec u t) as [->|N]; [|apply Os].
+        eapply ones_first_tail; exact Ost.
+    + apply Nat.ltb_ge in Lb. constructor.
+      * intros u k. rewrite ord_set_comp. destruct (Nat.eq_dec u t) as [->|N].
+        -- rewrite Eo. specialize (Oct k). destruct (Bool.eqb_spec j k) as [->|Njk].
+           ++ rewrite comp_set_comp_same. lia.
+           ++ rewrite comp_other_eq by congruence. exact Oct.
+        -- rewrite Oc. destruct (Bool.eqb_spec j k) as [->|Njk].
+           ++ rewrite comp_set_comp_same, (Lo u N). reflexivity.
+           ++ rewrite comp_other_eq by congruence. reflexivity.
+      * intros u. rewrite ord_set_comp. apply Os.
+Qed.
+
+Lemma reachable2_g_facts pof s :
+  reachable2_g pof s -> Inv2 s /\ preachable_g pof (comp0 s) /\ preachable_g pof (comp1 s).
+Proof.
+  induction 1 as [|s l s' R [I [R0 R1]] G H]; [split; [apply inv2_init|split; constructor]|].
+  unfold guard2 in G. apply andb_true_iff in G. destruct G as [G1 G2]. split; [eapply step2_inv2; eauto|].
+  destruct l as [i [t a]]. destruct (step2_components _ _ _ _ _ _ H) as [Hs Ho].
+  destruct i; cbn [comp negb] in Hs, Ho, G2.
+  - split; [rewrite Ho; exact R0|eapply prg_step; [exact R1|exact G2|exact Hs]].
+  - split; [eapply prg_step; [exact R0|exact G2|exact Hs]|rewrite Ho; exact R1].
+Qed.
+
+Lemma stacks_empty_dec ps : (forall t, gets ps t = []) \/ (exists t, gets ps t <> []).
+Proof.
+  unfold gets. induction (pstk ps) as [|x tl IH].
+  - left. intros t. apply Proofs.nth_nil.
+  - destruct x as [|f r].
+    + destruct IH as [IH|[t IH]]; [left; intros [|t]; [reflexivity|apply IH]|right; exists (S t); exact IH].
+    + right. exists 0. discriminate.
+Qed.
+
+Lemma step2_go_enabled pof s i t c rest :
+  ord s t = i :: rest -> pstep pof (comp s i) (t, PGo) = Some c -> exists s', step2 pof s (i, (t, PGo)) = Some s'.
+Proof.
+  intros Eo E. unfold step2. rewrite Eo, Bool.eqb_reflx, E.
+  destruct (length (gets c t) <? length (gets (comp s i) t)); eexists; reflexivity.
+Qed.
+
+(* Two-path deadlock freedom: if every thread respects the lock order (path 0 before path 1) and nobody makes a blocking
+   exclusive request while inside shared blocks of the same path only, then whenever some thread has an open request,
+   some thread can run its next atomic section -- any number of processes and threads. *)
+Theorem two_paths_deadlock_free_lemma pof s :
+  reachable2_g pof s -> (exists t, ord s t <> []) -> exists i t s', step2 pof s (i, (t, PGo)) = Some s'.
+Proof.
+  intros R [t0 N0]. destruct (reachable2_g_facts _ _ R) as [[Oc Os] [R0 R1]].
+  assert (Head : forall t i, gets (comp s i) t <> [] -> (i = true \/ forall u, gets (comp1 s) u = []) ->
+                 exists rest, ord s t = i :: rest).
+  { intros t i Ne Hi. pose proof (Oc t i) as C. pose proof (Os t) as S.
+    destruct (ord s t) as [|j rest] eqn:Eo.
+    { cbn [cnt_path] in C. destruct (gets (comp s i) t) as [|x y]; [congruence|cbn [length] in C; discriminate C]. }
+    destruct (Bool.eqb_spec j i) as [->|Nji]; [eauto|exfalso]. destruct Hi as [->|Hi].
+    - (* i = path 1, head = path 0: no path-1 entry may follow *)
+      destruct j; [congruence|]. cbn [ones_first] in S. apply negb_true_iff in S. cbn [cnt_path Bool.eqb] in C.
+      assert (Z : cnt_path true rest = 0).
+      { clear - S. induction rest as [|b tl IH]; [reflexivity|]. cbn in S. destruct b; [discriminate|]. cbn. apply IH. exact S. }
+      destruct (gets (comp s true) t); [congruence|]. cbn in C. lia.
+    - (* no frame on path 1 at all: the head cannot be path 1 *)
+      destruct j, i; try congruence.
+      + pose proof (Oc t true) as C1. cbn [comp] in C1. rewrite Hi, Eo in C1. cbn in C1. discriminate C1.
+      + apply Ne. cbn [comp]. apply Hi. }
+  destruct (stacks_empty_dec (comp1 s)) as [E1|[t1 N1]].
+  - (* everybody is on path 0 *)
+    assert (Ne0 : gets (comp0 s) t0 <> []).
+    { pose proof (Oc t0 false) as C0. pose proof (Oc t0 true) as C1. cbn [comp] in C0, C1. rewrite E1 in C1. cbn in C1.
+      destruct (ord s t0) as [|j rest]; [congruence|]. destruct j; cbn in C0, C1; [discriminate C1|].
+      intros Z. rewrite Z in C0. discriminate C0. }
+    destruct (path_deadlock_free_lemma pof _ R0 (ex_intro _ t0 Ne0)) as [t [c Hc]].
+    assert (Nt : gets (comp0 s) t <> []).
+    { intros Z. unfold pstep, pstepo in Hc. rewrite Z in Hc. discriminate Hc. }
+    destruct (Head t false Nt (or_intror E1)) as [rest Eo]. destruct (step2_go_enabled pof s false t c rest Eo Hc) as [s' Hs]. eauto.
+  - destruct (path_deadlock_free_lemma pof _ R1 (ex_intro _ t1 N1)) as [t [c Hc]].
+    assert (Nt : gets (comp1 s) t <> []).
+    { intros Z. unfold pstep, pstepo in Hc. rewrite Z in Hc. discriminate Hc. }
+    destruct (Head t true Nt (or_introl eq_refl)) as [rest Eo]. destruct (step2_go_enabled pof s true t c rest Eo Hc) as [s' Hs]. eauto.
+Qed.
